@@ -51,28 +51,21 @@ def _levels(tier):
                                   if _has_form(s)))))
     L.append(('pairs under a def / core patterns, assign', 'list',
               lambda: G.pairs(G.CORE, F1, under=('F',))))
-    L.append(('chains d=3 / full patterns, assign', 'list',
-              lambda: (s for s in G.chains(3, G.FULL, F1) if not _is_core(s))))
     if tier == 'thorough':
+        L.append(('chains d=3 / full patterns, assign', 'list',
+                  lambda: (s for s in G.chains(3, G.FULL, F1) if not _is_core(s))))
         L.append(('pairs under module / full patterns, assign', 'list',
                   lambda: (s for s in G.pairs(G.FULL, F1) if not _is_core(s))))
         L.append(('chains d=4 / core patterns, assign', 'list', lambda: G.chains(4, G.CORE, F1)))
         for st in ('gen', 'set', 'dict'):
             L.append(('chains d<=3 with a comprehension / core patterns, style %s' % st, st,
-                      lambda: (s for d in (1, 2, 3) for s in G.chains(d, G.CORE, F1)
-                               if 'G' in G.shape_id(s) and (st != 'gen' or d == 3))))
-        L.append(('chains d=2 / full patterns x all forms everywhere', 'list',
-                  lambda: (s for s in G.chains(2, G.FULL, G.FORMS) if _nforms(s) >= 2)))
+                      (lambda st=st: (s for d in (1, 2, 3) for s in G.chains(d, G.CORE, F1)
+                                      if 'G' in G.shape_id(s) and (st != 'gen' or d == 3)))))
         for lv in (0, 1, 2, 3):
             L.append(('chains d=3 / core patterns, all forms at level %d' % lv, 'list',
                       (lambda lv=lv: (s for s in G.chains(3, G.CORE, F1,
                                                           forms_by_depth={lv: G.FORMS})
                                       if _has_form(s)))))
-        for lv in (1, 2, 3, 4):
-            L.append(('chains d=4 / core patterns, full patterns at level %d' % lv, 'list',
-                      (lambda lv=lv: (s for s in G.chains(4, G.CORE, F1,
-                                                          alpha_by_depth={lv: G.FULL})
-                                      if not _is_core(s)))))
     return L
 
 
@@ -120,22 +113,17 @@ def _relation(use_path, site, kinds):
     if site['role'] in ('load', 'del'):
         return 'not-a-binding'
     ow = site['owner']
-    phys = site['path']
     if ow is None:
         return 'unbound-name'
     ow = tuple(ow)
-    phys = tuple(phys)
     use_path = tuple(use_path)
     if use_path[:len(ow)] == ow:
         if len(ow) < len(use_path) and kinds[ow] == 'C':
             return 'class-body-seen-from-inner-scope'
-        if kinds[phys] == 'G' and use_path[:len(phys)] != phys:
-            return 'comprehension-variable-outside'
         return 'other-enclosing-scope'
     if ow[:len(use_path)] == use_path:
-        if kinds[phys] == 'G':
-            return 'comprehension-variable-outside'
-        return 'inner-scope'
+        return {'G': 'comprehension-variable-outside', 'L': 'lambda-variable-outside',
+                'C': 'inner-class-body', 'F': 'inner-function'}[kinds[ow]]
     return 'sibling-scope'
 
 
@@ -168,9 +156,10 @@ def _judge(an, query):
             elif not same_file:
                 bad.append(('scope:other-module', (name, line, col)))
             elif (line, col) not in accepted:
-                bad.append(('scope:' + _relation(us['path'], sites.get((line, col)), kinds),
-                            (name, line, col)))
+                bad.append(('scope:%s/%s' % (_relation(us['path'], sites.get((line, col)), kinds),
+                                             us['symclass']), (name, line, col)))
         base = {'use': pos, 'use_scope': _scope_name(us['path'], kinds),
+                'symtable_says': us['symclass'],
                 'observed_tags': us['tags'],
                 'python_took_it_from': _scope_name(us['runtime_owner'], kinds),
                 'accepted': sorted(accepted), 'goto': got}
@@ -178,7 +167,8 @@ def _judge(an, query):
             fails.append({'site': what + '@goto', 'k': us['k'],
                           'detail': dict(base, offending=[b[1] for b in bad if b[0] == what])})
         if not got:
-            fails.append({'site': 'no-definition@goto', 'k': us['k'], 'detail': base})
+            fails.append({'site': 'no-definition/%s@goto' % us['symclass'], 'k': us['k'],
+                          'detail': base})
         elif not bad and us['exact'] is not None:
             if {(l, c) for (_, _, l, c) in got} != {tuple(us['exact'])}:
                 fails.append({'site': 'not-the-observed-assignment@goto', 'k': us['k'],
